@@ -14,6 +14,7 @@ import O2P.Model.Cookies
 import O2P.Model.Signed
 import O2P.Model.Serve
 import O2P.Model.Routes
+import O2P.Model.ClientIP
 
 open O2P O2P.Go
 
@@ -30,7 +31,7 @@ def strs (alpha : List Char) : Nat → List Str
 def toyMac (k m : Str) : Str := (k ++ '#' :: m).reverse ++ natToStr (k.length * 7 + m.length)
 def toySha (m : Str) : Str := ('h' :: m) ++ natToStr m.length
 
-def E0 : Go.Ext := ⟨toyMac, toySha, 1000000 * 1000000000, Ck.splitHostPortGo, fun _ _ => false, fun _ => none, fun _ => none⟩
+def E0 : Go.Ext := { Go.Ext.trivial with mac := toyMac, sha := toySha, nowNs := 1000000 * 1000000000, splitHostPortStd := Ck.splitHostPortGo }
 
 def showM {α} (f : α → String) : Go.M α → String
   | .ok a => f a
@@ -202,6 +203,20 @@ def main : IO UInt32 := do
               showC { Name := c.name, Value := c.value, Path := c.path, Domain := c.domain, HttpOnly := c.httpOnly, Secure := c.secure,
                       SameSite := (if c.sameSite = "lax".toList then 2 else if c.sameSite = "strict".toList then 3 else if c.sameSite = "none".toList then 4 else 0),
                       MaxAge := (match c.maxAge with | none => 0 | some m => m) }))
+  -- real-client-IP selection: toy address parser ("1".."9" are addresses), Go-like host:port splitting
+  let pip : Str → Option (BitVec 128) := fun t => match t with | [c] => if '1' ≤ c && c ≤ '9' then some (BitVec.ofNat 128 c.toNat) else none | _ => none
+  let Ei : Go.Ext := { E0 with parseIP := pip }
+  let T : NetText := { splitHostPort := fun t => (Ck.splitHostPortGo t).map (·.1), parseIP := pip }
+  let hvals : List Str := (["", "1", " 1", "1 ", "1,2", " 1 , 2", ",1", "1:80", "1:80,2", "x", "x,1", "[1]:80", "1:", " ", ",", "1\t", "\u00a01", "12"] : List String).map String.toList
+  let showCI : ClientIP → String := fun c => match c with | .addr a => "addr " ++ toString a.toNat | .absent => "absent" | .error => "error"
+  let toCI : Option Go.IP × Go.Err → ClientIP := fun r => match r.2 with | some _ => .error | none => match r.1 with | some a => .addr a | none => .absent
+  bad := bad + (← firstDiff "GetRealClientIP" (hvals.flatMap fun v => [([("X-Real-Ip".toList, [v])] : Headers), [("X-Real-Ip".toList, [v, ['9']])], [("X-Forwarded-For".toList, [v])], []])
+    (fun h => toString (h.map fun kv => (String.ofList kv.1, kv.2.map String.ofList)))
+    (fun h => showM (fun r => showCI (toCI r)) (Gen.Tr.GetRealClientIP Ei "X-Real-Ip".toList (headerGet h)))
+    (fun h => showCI (getRealClientIP T "X-Real-Ip".toList h)))
+  bad := bad + (← firstDiff "getRemoteIP" hvals q
+    (fun v => showM (fun r => showCI (toCI r)) (Gen.Tr.getRemoteIP Ei { header := fun _ => [], host := [], urlScheme := [], requestURI := [], scope := none, remoteAddr := v }))
+    (fun v => showCI (O2P.getRemoteIP T v)))
   IO.println s!"trsearch: {bad} function(s) with a disagreement"
   return (if bad == 0 then 0 else 1)
 
